@@ -12,6 +12,10 @@ R21b symmetry of comparability: are_comparable(a, b) consults get_compatible_uni
 R21c both operands get the same normalisation on every path to the match (both converted with
      as_decimal / Quantity or both left as strings).
 Decides operator wiring and the symmetry of the tables; exactness of Decimal/pint arithmetic is not decided.
+R21d exact operands: no value that reaches the comparison passes through binary floating point - the assignments that
+     build the operand locals (and the locals they derive from) contain no float(...) call and no call to a repository
+     function annotated `-> float` (Decimal / pint Quantity over Decimal are exact; a float round trip makes values that
+     differ beyond ~16 significant digits compare equal, or invert '<').
 """
 from __future__ import annotations
 
@@ -185,3 +189,37 @@ def run(ctx) -> None:
     else:
         ctx.fail("R21c", cv, (bad or cv.node), "compare_values: quantity_a and quantity_b are built by the same expressions",
                  f"operands are normalised differently: {shapes}")
+
+    # ---- R21d
+    ctx.rule("R21d", "operands never pass through float")
+    n_def = 0
+    lossy = []
+    for n in walk_no_nested(cv.node):
+        if not isinstance(n, ast.Assign):
+            continue
+        tgts = []
+        for t in n.targets:
+            tgts += [e.id for e in (t.elts if isinstance(t, ast.Tuple) else [t]) if isinstance(e, ast.Name)]
+        if not any(t in da | db | {QA, QB} for t in tgts):
+            continue
+        n_def += 1
+        for c in ast.walk(n.value):
+            if not isinstance(c, ast.Call):
+                continue
+            if isinstance(c.func, ast.Name) and c.func.id == "float":
+                lossy.append((n, "float(...)"))
+            else:
+                for callee in ctx.res.resolve_call(c, cv, cha=False):
+                    r = callee.node.returns
+                    if r is not None and norm(r).split("|")[0].strip() == "float":
+                        lossy.append((n, f"{callee.short}() -> float"))
+    inst = "compare_values: operand values stay exact (Decimal / Quantity), no float conversion"
+    if n_def < 4:
+        raise AnchorError(f"compare_values: only {n_def} operand definitions found (floor 4)")
+    if lossy:
+        n0, what = lossy[0]
+        ctx.fail("R21d", cv, n0, inst, f"`{norm(n0)[:90]}` routes an operand through {what}: binary floating point cannot represent "
+                 "most decimal values, so values that differ beyond ~16 significant digits compare equal and '<' / '>' can invert "
+                 "(e.g. 1 ms < 0.0010000000000000000001 s)")
+    else:
+        ctx.ok("R21d", inst, {"rule": "R21d", "operand_definitions": n_def})
